@@ -263,6 +263,9 @@ fn main() {
         if let Some(d) = step.get("depfile").and_then(|d| d.as_arr()) {
             let _ = std::fs::write(d[0].as_str().unwrap_or(""), d[1].as_str().unwrap_or(""));
         }
+        if let Some(d) = step.get("depfile_remove").and_then(|d| d.as_str()) {
+            let _ = std::fs::remove_file(d);
+        }
     }
     log_event(&format!("E {} {} {} {} {}\n", id, pid, mono_ns(), fail.as_deref().unwrap_or("ok"), ver));
     let _ = std::io::stdout().flush();
